@@ -614,8 +614,9 @@ impl<'a> Ctx<'a> {
 		}
 		for (name, v) in variants {
 			let mut oo = o.clone();
-			oo.unk_sizes.insert(0x40, [1u16, 7, 600][(o.seed % 3) as usize]);
-			oo.unk_sizes.insert(0x7F, [600u16, 1, 7][(o.seed % 3) as usize]);
+			// sizes incl. the largest a payload table can declare
+			oo.unk_sizes.insert(0x40, [1u16, 7, 600, 65535][((o.seed >> 3) % 4) as usize]);
+			oo.unk_sizes.insert(0x7F, [600u16, 65534, 1, 7][((o.seed >> 3) % 4) as usize]);
 			let with = crate::gen::build_file(self.db, &self.beh.occ, &v, &table, self.beh.fin.gactual, self.beh.meta == "some", 0, &oo);
 			let g = match real::read_slp_noopts(&with.bytes) {
 				Outcome::Ok(g) => g,
@@ -674,6 +675,17 @@ impl<'a> Ctx<'a> {
 				}
 			}
 			Err(e) => out.push(viol("newer_version_fields", &cls, "mismatch", format!("harness built an invalid start block: {}", e))),
+		}
+		// ... and with the skip-frames option (finished files only): same start, end, metadata
+		if self.beh.fin.gend != 0 {
+			match real::read_slp(&self.built.bytes, true, false) {
+				Outcome::Ok(sk) => {
+					if sk.start.bytes != g.start.bytes || sk.end != g.end || sk.metadata != g.metadata {
+						out.push(viol("newer_version_skip", &cls, "mismatch", "skip-frames read of a newer-version file differs from the full read".into()));
+					}
+				}
+				o => out.push(viol("newer_version_skip", &cls, o.kind(), o.detail())),
+			}
 		}
 		if let Some(e) = &g.end {
 			if let Ok(want) = crate::blocks::expected_end_json(self.db, &self.built.end_block, self.db.blocks.end_groups.len()) {
@@ -805,6 +817,20 @@ impl<'a> Ctx<'a> {
 					}
 				}
 				o => out.push(outcome_viol("slpp_reserialise", &cc, &o)),
+			}
+			// the same archive arriving in short reads (pipe, socket, streaming decompressor)
+			for frag in [crate::stream::Frag::Fixed(1 + arch.len() % 5), crate::stream::Frag::Random(arch.len() as u64)] {
+				match real::read_slpp_frag(&arch, false, frag.clone()) {
+					Outcome::Ok(g3) => match real::write_slp(&g3) {
+						Outcome::Ok(w) => {
+							if w != self.built.bytes || g3.hash != hash {
+								out.push(viol("slpp_roundtrip_fragmented", &cc, "mismatch", format!("the game read from the archive depends on how the stream fragments reads ({:?})", frag)));
+							}
+						}
+						o => out.push(outcome_viol("slpp_roundtrip_fragmented", &cc, &o)),
+					},
+					o => out.push(viol("slpp_roundtrip_fragmented", &cc, o.kind(), format!("{:?}: {}", frag, o.detail()))),
+				}
 			}
 		}
 	}
